@@ -119,27 +119,27 @@ func readRecordHeaderV4(reader *checksumByteReader) (payloadSizeUncompressed uin
 
 	recordNil, err := reader.ReadByte()
 	if err != nil {
-		return 0, 0, false, err
+		return 0, 0, false, insideRecord(err)
 	}
 
 	payloadSizeUncompressed, err = binary.ReadUvarint(reader)
 	if err != nil {
-		return 0, 0, false, err
+		return 0, 0, false, insideRecord(err)
 	}
 
 	payloadSizeCompressed, err = binary.ReadUvarint(reader)
 	if err != nil {
-		return 0, 0, false, err
+		return 0, 0, false, insideRecord(err)
 	}
 
 	actualChecksum, err := reader.Checksum()
 	if err != nil {
-		return 0, 0, false, err
+		return 0, 0, false, insideRecord(err)
 	}
 
 	expectedChecksum, err := binary.ReadUvarint(reader)
 	if err != nil {
-		return 0, 0, false, err
+		return 0, 0, false, insideRecord(err)
 	}
 
 	// every field has exactly one encoding, the writer's shortest form. An over-long varint (or a nil flag other than
@@ -161,6 +161,15 @@ func readRecordHeaderV4(reader *checksumByteReader) (payloadSizeUncompressed uin
 	}
 
 	return payloadSizeUncompressed, payloadSizeCompressed, recordNil == 1, nil
+}
+
+// insideRecord turns the end of the file into an error when it is met behind the first byte of a record: that is not
+// the end of the records, but a record that was cut off.
+func insideRecord(err error) error {
+	if err == io.EOF {
+		return io.ErrUnexpectedEOF
+	}
+	return err
 }
 
 func allocateRecordBuffer(header *Header, payloadSizeUncompressed uint64, payloadSizeCompressed uint64) (uint64, []byte) {
